@@ -487,6 +487,13 @@ func init() {
 				}
 			}})
 		}
+		us = append(us, bigUnits(sp.Messages, tier, 60, func(c *core.Ctx, d *domainPDU, i int) {
+			k := &core.Case{Oracle: "decode", Target: "nasMessage." + d.Def.Name, S: []string{d.Def.Name}, B: [][]byte{d.B}, I: []int64{int64(i) % 2}}
+			c.Do(k)
+			if i%4 == 0 {
+				c.NonTrivial(k.Hash())
+			}
+		})...)
 		us = append(us, domainUnits(sp, sp.Messages, tier, 30, func(c *core.Ctx, d *domainPDU, i int) {
 			k := &core.Case{Oracle: "decode", Target: "nasMessage." + d.Def.Name, S: []string{d.Def.Name}, B: [][]byte{d.B}, I: []int64{int64(i) % 2}}
 			c.Do(k)
